@@ -48,6 +48,23 @@ CHECKS = {
     technique="Lean 4 theorems (preimage counting, algebraic identities, induction on the sub-step loop); statistical tests with exact binomial bounds; draw-replay correspondence",
     design="3/C20",
     note="The measure-theoretic step 'piecewise isometry with constant preimage count => uniform law invariant' is cited, not formalised."),
+ "C09": dict(
+    text="Proof: hatch time positive for every rate in [0,1] and every temperature (explicit quadratic x piecewise-linear model of the "
+         "published table, reproduced at its 12 knots, clamped outside [2,10]); egg stage increment = dt/(days*86400) > 0 and activation "
+         "iff stage >= 1; larval stage strictly increasing (exp/rpow positivity) and deactivation iff stage >= 2; monotone over every "
+         "history; shrimp stage in [1,6], monotone, exact rate, length table and monotone length (general np.interp lemma); larvae weight "
+         "floor and positive Folkvord growth on the model's size range. Tie: translator-generated increments + correspondence of the real "
+         "update_ibm / scipy spline (1e-9).",
+    technique="Lean 4 theorems on translator-generated increments (polynomial positivity by nlinarith, induction over histories); differential correspondence",
+    design="3/C09"),
+ "C16": dict(
+    text="Proof on definitions GENERATED from /repo's source each run: density strictly increasing in salinity for T in [-2,40], S in [0,42]; "
+         "EOS-80 check values to 1e-5 (rational enclosure of sqrt 35); density/viscosity/sun-height copies equal; sinking speed odd, zero at "
+         "neutral, right-signed on both branches; larva/lice/shrimp swimming directions; surface light = five-band function, within "
+         "[1.15e-5,1505.76], continuous at the band edges; exp decay with depth. Tie: translator + its validation against the Python functions.",
+    technique="Python-AST-to-Lean translator regenerated each run; Lean 4 theorems (nlinarith polynomial bounds, sign lemmas); translation validation",
+    design="3/C16",
+    note="Monotonicity of the sinking speed across the Stokes/Dallavalle switch and the egg-vs-larvae copy equality are checked numerically on the implementation only. Float-only caveat: arcsin of 1+ulp."),
 }
 
 def main():
@@ -73,7 +90,7 @@ def main():
             na.append(dict(property_id=pid, reason="check not built yet in this session (work in progress; Lean model + theorems planned in DESIGN.md section 3/%s)" % pid))
     m = dict(
         version=1,
-        setup_cmd="cd lean && lake build LadimModel driver LadimProofs 2>&1 | tail -5",
+        setup_cmd="python3 translator/py2lean.py /repo lean/LadimModel/Generated && cd lean && lake build LadimModel driver LadimProofs 2>&1 | tail -5",
         hooks=dict(guard="LADIM_PLUGINS_VERIF", enable="no source hooks are needed: checks import /repo in-process and patch numpy.random from the harness; LADIM_PLUGINS_VERIF=1 is set by ./check for completeness",
                    baseline_off_cmd="cd /repo && /venv/bin/python -m pytest -ra -q -p no:cacheprovider --timeout=900 --continue-on-collection-errors",
                    source_commits=[], add_only=True),
